@@ -23,6 +23,7 @@ package revocation
 //@ func (*bitstring).setBit
 //@   prop C11 C19
 //@   safety
+//@   modifies **bs
 //@   ensures [error-iff-out-of-range] (statusListIndex < 0 || statusListIndex/8 >= len(*bs)) <==> !isNilIface(result)
 //@   ensures [bit-has-value] isNilIface(result) ==> ((((*bs)[statusListIndex/8] >> (7 - uint8(statusListIndex%8))) & 1 == 1) == value)
 //@   ensures [other-bits-unchanged] forall j int :: 0 <= j && j/8 < len(*bs) && j != statusListIndex ==>
@@ -31,11 +32,84 @@ package revocation
 
 // ---- C11: a credential whose status-list bit is set fails verification ----
 
-// ASSUMED: fetching / loading a status list does not modify the credential being verified.
-//@ func (*StatusList2021).statusList
+// ---- C11: the stored copy of a status list is the whole, verified, downloaded list ----
+
+// The bit string handed back is everything the gzip stream of the given encoded list inflates to.
+//@ func expand
+//@   prop C11
+//@   assume-benign
+//@   call (*base64.Encoding).DecodeString #1 requires [decodes-the-given-list] arg(1) == encodedList
+//@   call bytes.NewBuffer #1 requires [inflates-the-decoded-bytes] isNilIface(ret(call (*base64.Encoding).DecodeString #1).1) && arg(0) == ret(call (*base64.Encoding).DecodeString #1).0
+//@   call gzip.NewReader #1 requires [inflates-the-decoded-bytes] arg(0) == io.Reader(ret(call bytes.NewBuffer #1))
+//@   call (*bytes.Buffer).ReadFrom #1 requires [reads-the-whole-gzip-stream] isNilIface(ret(call gzip.NewReader #1).1) && arg(1) == io.Reader(ret(call gzip.NewReader #1).0)
+//@   ensures [result-is-the-whole-inflated-stream] isNilIface(result.1) ==> did(call (*bytes.Buffer).ReadFrom #1) && isNilIface(ret(call (*bytes.Buffer).ReadFrom #1).1)
+//@        && arg(call (*bytes.Buffer).Bytes #1, 0) == arg(call (*bytes.Buffer).ReadFrom #1, 0) && result.0 == bitstring(ret(call (*bytes.Buffer).Bytes #1))
+
+//@ func (*StatusList2021).download
 //@   trusted
 //@   benign
 //@   ensures isNilIface(result.1) ==> result.0 != nil
+//@ func (*StatusList2021).validate
+//@   trusted
+//@   benign
+//@   ensures isNilIface(result.1) ==> result.0 != nil
+//@ func (*StatusList2021).loadCredential
+//@   trusted
+//@   benign
+//@   ensures isNilIface(result.1) ==> result.0 != nil
+//@ func (*StatusList2021).isManaged
+//@   trusted
+//@   benign
+// the injected signature verifier / signer / key resolver (function-valued fields)
+//@ func .VerifySignature
+//@   trusted
+//@   benign
+//@ func .Sign
+//@   trusted
+//@   benign
+//@ func .ResolveKey
+//@   trusted
+//@   benign
+
+// A downloaded list is used only when it matches the spec, its encoded list inflates and its signature verifies.
+//@ func (*StatusList2021).verify
+//@   prop C11
+//@   assume-benign
+//@   ensures [only-validated-and-signature-checked-lists] isNilIface(result.1) ==>
+//@        isNilIface(ret(call (*StatusList2021).validate #1).1) && result.0 == ret(call (*StatusList2021).validate #1).0 && result.0 != nil
+//@        && arg(call (*StatusList2021).validate #1, 1) == cred
+//@        && did(call expand #1) && isNilIface(ret(call expand #1).1) && arg(call expand #1, 0) == result.0.EncodedList
+//@        && did(call .VerifySignature #1) && isNilIface(ret(call .VerifySignature #1)) && arg(call .VerifySignature #1, 0) == cred
+
+// update: the record that is stored and used for the revocation check is built from the list downloaded
+// from the URL the credential names, verified, about that very URL, with all of its bits.
+//@ func (*StatusList2021).update
+//@   prop C11
+//@   assume-benign
+//@   ensures isNilIface(result.1) ==> result.0 != nil
+//@   ensures [record-is-the-verified-list-of-that-url] isNilIface(result.1) ==>
+//@        isNilIface(ret(call (*StatusList2021).download #1).1) && arg(call (*StatusList2021).download #1, 1) == statusListCredential
+//@        && did(call (*StatusList2021).verify #1) && isNilIface(ret(call (*StatusList2021).verify #1).1)
+//@        && same(arg(call (*StatusList2021).verify #1, 1), *ret(call (*StatusList2021).download #1).0)
+//@        && ret(call (*StatusList2021).verify #1).0.ID == statusListCredential
+//@        && did(call expand #1) && isNilIface(ret(call expand #1).1) && arg(call expand #1, 0) == ret(call (*StatusList2021).verify #1).0.EncodedList
+//@        && result.0.Bitstring == ret(call expand #1).0 && result.0.SubjectID == statusListCredential
+//@        && result.0.StatusPurpose == ret(call (*StatusList2021).verify #1).0.StatusPurpose
+
+// statusList answers from the stored copy or from a fresh download of the same URL, nothing else; an
+// external list that is expired or older than maxAgeExternal is refreshed first.
+//@ func (*StatusList2021).statusList
+//@   prop C11
+//@   assume-benign
+//@   ensures isNilIface(result.1) ==> result.0 != nil
+//@   ensures [stored-or-freshly-downloaded-list-of-that-url] isNilIface(result.1) ==> arg(call (*StatusList2021).loadCredential #1, 1) == statusListCredential
+//@        && ( (isNilIface(ret(call (*StatusList2021).loadCredential #1).1) && result.0 == ret(call (*StatusList2021).loadCredential #1).0)
+//@          || (did(call (*StatusList2021).update #1) && isNilIface(ret(call (*StatusList2021).update #1).1) && result.0 == ret(call (*StatusList2021).update #1).0 && arg(call (*StatusList2021).update #1, 1) == statusListCredential)
+//@          || (did(call (*StatusList2021).update #2) && isNilIface(ret(call (*StatusList2021).update #2).1) && result.0 == ret(call (*StatusList2021).update #2).0 && arg(call (*StatusList2021).update #2, 1) == statusListCredential) )
+//@   ensures [stale-external-list-is-refreshed] isNilIface(result.1) && isNilIface(ret(call (*StatusList2021).loadCredential #1).1) && result.0 == ret(call (*StatusList2021).loadCredential #1).0
+//@        ==> ret(call (*StatusList2021).isManaged #1) == true
+//@         || ( !(result.0.Expires != nil && ret(call (time.Time).Before #1) == true) && ret(call (time.Time).Before #2) == false )
+//@         || did(call (*StatusList2021).update #2)
 
 //@ func (*StatusList2021).Verify
 //@   prop C11 C19
@@ -49,3 +123,137 @@ package revocation
 //@   ensures [set-bit-means-revoked] did(call (*bitstring).bit #1) && isNilIface(ret(call (*bitstring).bit #1).1) && ret(call (*bitstring).bit #1).0 == true
 //@        ==> result == errRevoked
 //@   ensures [success-only-after-every-entry-was-examined] isNilIface(result) ==> old(credentialToVerify.CredentialStatus) == nil || $done1
+
+// ---- C11: the list the issuer signs carries every recorded revocation; a set bit is never cleared ----
+
+//@ func newBitstring
+//@   prop C11
+//@   modifies nothing
+//@   ensures result != nil && isFresh(result) && isFresh(*result) && len(*result) == defaultBitstringLengthInBytes
+
+//@ func compress
+//@   trusted
+//@   benign
+//@ func (*StatusList2021).buildAndSignVC
+//@   trusted
+//@   benign
+//@   ensures isNilIface(result.1) ==> result.0 != nil && result.0.ExpirationDate != nil
+
+// Every revocation row of the issuer record has its bit set in the bit string that is compressed,
+// signed and stored (loop invariant over the rows; setBit's contract keeps the earlier bits).
+//@ func (*StatusList2021).updateCredential
+//@   prop C11
+//@   modifies nothing
+//@   requires issuerRecord != nil
+//@   loop 1 invariant expanded != nil && len(*expanded) == defaultBitstringLengthInBytes && isFresh(*expanded) && isFresh(expanded)
+//@   loop 1 invariant forall k int :: 0 <= k && k < $i ==> 0 <= issuerRecord.Revocations[k].StatusListIndex && issuerRecord.Revocations[k].StatusListIndex/8 < len(*expanded)
+//@        && (((*expanded)[issuerRecord.Revocations[k].StatusListIndex/8] >> (7 - uint8(issuerRecord.Revocations[k].StatusListIndex%8))) & 1 == 1)
+//@   call (*bitstring).setBit #* requires [bits-are-only-ever-set] arg(2) == true
+//@   call compress #1 requires [every-revocation-is-in-the-signed-list] $done1 && arg(0) == []byte(*expanded)
+//@        && forall k int :: 0 <= k && k < len(issuerRecord.Revocations) ==> 0 <= issuerRecord.Revocations[k].StatusListIndex && issuerRecord.Revocations[k].StatusListIndex/8 < len(*expanded)
+//@        && (((*expanded)[issuerRecord.Revocations[k].StatusListIndex/8] >> (7 - uint8(issuerRecord.Revocations[k].StatusListIndex%8))) & 1 == 1)
+//@   call (*StatusList2021).buildAndSignVC #1 requires [signed-list-is-that-bit-string-for-that-page] isNilIface(ret(call compress #1).1) && arg(3).EncodedList == ret(call compress #1).0
+//@        && arg(3).ID == issuerRecord.SubjectID && arg(3).StatusPurpose == StatusPurposeRevocation && arg(4) == kid
+//@        && isNilIface(ret(call did.ParseDID #1).1) && arg(call did.ParseDID #1, 0) == issuerRecord.Issuer && same(arg(2), *ret(call did.ParseDID #1).0)
+//@   ensures [record-is-the-signed-list] isNilIface(result.2) ==> result.0 != nil && result.1 != nil
+//@        && isNilIface(ret(call (*StatusList2021).buildAndSignVC #1).1) && result.0 == ret(call (*StatusList2021).buildAndSignVC #1).0
+//@        && result.1.SubjectID == issuerRecord.SubjectID && result.1.StatusPurpose == StatusPurposeRevocation
+//@        && result.1.Bitstring == *expanded && result.1.Expires != nil && *result.1.Expires == result.0.ExpirationDate.Unix()
+
+//@ func vc.ParseVerifiableCredential
+//@   trusted
+//@   benign
+//@ func audit.Context
+//@   trusted
+//@   benign
+//@ func audit.InfoFromContext
+//@   trusted
+//@   benign
+//@ func (gorm.Dialector).Name
+//@   trusted
+//@   benign
+//@ func slices.SortFunc
+//@   trusted
+//@   modifies args
+//@ func lockCredentialRecord
+//@   trusted
+//@   benign
+//@ func (*StatusList2021).statusListURL
+//@   trusted
+//@   pure
+
+// Revoke, inside one database transaction: the row (list, index) is created first (its primary key makes a
+// second revocation fail), then the issuer record is loaded WITH its revocation rows for that same list,
+// and the list signed from it replaces the stored one; every error aborts (rolls back) the transaction.
+//@ func (*StatusList2021).Revoke$1
+//@   prop C11
+//@   call (*gorm.DB).Create #1 requires [revocation-row-is-the-entry] isNilIface(ret(call lockCredentialRecord #1)) && arg(call lockCredentialRecord #1, 0) == tx && arg(call lockCredentialRecord #1, 1) == entry.StatusListCredential
+//@        && arg(0) == tx && arg(1).(*revocationRecord).StatusListCredential == entry.StatusListCredential && arg(1).(*revocationRecord).StatusListIndex == statusListIndex
+//@   call (*gorm.DB).First #1 requires [record-loaded-with-its-revocations] arg(0) == ret(call (*gorm.DB).Preload #1) && arg(call (*gorm.DB).Preload #1, 0) == tx && arg(call (*gorm.DB).Preload #1, 1) == "Revocations"
+//@        && arg(1) == any(issuerRecord) && len(arg(2)) == 2 && arg(2)[0] == any("subject_id = ?") && arg(2)[1] == any(entry.StatusListCredential)
+//@        && ret(call (*gorm.DB).Create #1).Error == nil
+//@   call (*StatusList2021).updateCredential #1 requires [list-resigned-from-the-loaded-record] arg(2) == issuerRecord && ret(call (*gorm.DB).First #1).Error == nil && arg(3) == kid
+//@        && 0 <= statusListIndex && statusListIndex <= issuerRecord.LastIssuedIndex
+//@   call (*gorm.DB).Create #2 requires [resigned-list-replaces-the-stored-one] isNilIface(ret(call (*StatusList2021).updateCredential #1).2) && arg(1) == any(ret(call (*StatusList2021).updateCredential #1).1)
+//@        && arg(0) == ret(call (*gorm.DB).Clauses #1) && arg(call (*gorm.DB).Clauses #1, 0) == tx
+//@   ensures [success-only-after-the-list-was-resigned-and-stored] isNilIface(result) ==> did(call (*gorm.DB).Create #2) && ret(call (*gorm.DB).Create #2).Error == nil
+
+//@ func (*StatusList2021).Revoke
+//@   prop C11
+//@   call (*gorm.DB).Transaction #1 requires [revokes-the-index-the-entry-names] isNilIface(ret(call strconv.Atoi #1).1) && arg(call strconv.Atoi #1, 0) == entry.StatusListIndex && statusListIndex == ret(call strconv.Atoi #1).0
+//@        && entry.StatusPurpose == StatusPurposeRevocation && ret(call (*StatusList2021).isManaged #1) == true && arg(call (*StatusList2021).isManaged #1, 1) == entry.StatusListCredential
+//@   ensures [success-only-through-the-transaction] isNilIface(result) ==> did(call (*gorm.DB).Transaction #1) && isNilIface(ret(call (*gorm.DB).Transaction #1))
+
+// Serving a list: re-signing loads the record WITH its revocation rows for the URL being served.
+//@ func (*StatusList2021).Credential$1
+//@   prop C11
+//@   call (*gorm.DB).First #1 requires [record-loaded-with-its-revocations] arg(0) == ret(call (*gorm.DB).Preload #1) && arg(call (*gorm.DB).Preload #1, 0) == tx && arg(call (*gorm.DB).Preload #1, 1) == "Revocations"
+//@        && arg(1) == any(issuerRecord) && len(arg(2)) == 2 && arg(2)[0] == any("subject_id = ?") && arg(2)[1] == any(statusListCredentialURL)
+//@        && isNilIface(ret(call lockCredentialRecord #1)) && arg(call lockCredentialRecord #1, 1) == statusListCredentialURL
+//@   call (*StatusList2021).updateCredential #1 requires [list-resigned-from-the-loaded-record] arg(2) == issuerRecord && ret(call (*gorm.DB).First #1).Error == nil && arg(3) == kid
+//@   ensures [served-list-is-the-resigned-one] isNilIface(result) ==> isNilIface(ret(call (*StatusList2021).updateCredential #1).2) && cred == ret(call (*StatusList2021).updateCredential #1).0
+
+// Serving a list: the stored credential is returned only when it stays valid for minTimeUntilExpired; otherwise it is re-signed.
+//@ func (*StatusList2021).Credential
+//@   prop C11
+//@   ensures [stored-list-only-if-not-about-to-expire] isNilIface(result.1) ==>
+//@        ret(call (*StatusList2021).isManaged #1) == true && arg(call (*StatusList2021).isManaged #1, 1) == ret(call (*StatusList2021).statusListURL #1)
+//@        && ( ( isNilIface(ret(call (*StatusList2021).loadCredential #1).1) && did(call (time.Time).Before #1) && ret(call (time.Time).Before #1) == true
+//@               && isNilIface(ret(call vc.ParseVerifiableCredential #1).1) && result.0 == ret(call vc.ParseVerifiableCredential #1).0
+//@               && arg(call vc.ParseVerifiableCredential #1, 0) == ret(call (*StatusList2021).loadCredential #1).0.Raw
+//@               && arg(call (*StatusList2021).loadCredential #1, 1) == ret(call (*StatusList2021).statusListURL #1) )
+//@          || ( did(call (*gorm.DB).Transaction #1) && isNilIface(ret(call (*gorm.DB).Transaction #1)) ) )
+
+// Entry, inside one database transaction: the issuer's pages are read under an update lock, the index
+// handed out is the successor of the last one issued on the last page (or 0 on a new page whose number
+// is the successor of the last page), it stays within the bit string, and exactly that index is what
+// is written back (UpdateColumn / Create of the new page) before the lock is released.
+//@ func (*StatusList2021).Entry$1
+//@   prop C11
+//@   call (*gorm.DB).Last #1 requires [pages-read-under-update-lock] arg(0) == ret(call (*gorm.DB).Order #1) && arg(call (*gorm.DB).Order #1, 0) == ret(call (*gorm.DB).Clauses #1)
+//@        && arg(call (*gorm.DB).Clauses #1, 0) == tx && len(arg(call (*gorm.DB).Clauses #1, 1)) == 1
+//@        && arg(call (*gorm.DB).Clauses #1, 1)[0].(clause.Locking).Strength == clause.LockingStrengthUpdate
+//@        && arg(call (*gorm.DB).Order #1, 1) == any("page") && arg(1) == any(credentialIssuer)
+//@   call (*gorm.DB).Raw #1 requires [pages-read-under-update-lock] arg(0) == tx && arg(1) == "SELECT * FROM status_list WITH (UPDLOCK, ROWLOCK) WHERE issuer = ?"
+//@   call (*gorm.DB).UpdateColumn #1 requires [next-index-written-back]
+//@        arg(1) == "last_issued_index" && arg(2) == any(credentialIssuer.LastIssuedIndex)
+//@        && credentialIssuer.LastIssuedIndex <= maxBitstringIndex
+//@        && arg(0) == ret(call (*gorm.DB).Where #1) && len(arg(call (*gorm.DB).Where #1, 2)) == 1 && arg(call (*gorm.DB).Where #1, 2)[0] == any(credentialIssuer.SubjectID)
+//@        && arg(call (*gorm.DB).Where #1, 1) == any("subject_id = ?")
+//@   call (*gorm.DB).Create #1 requires [new-page-starts-at-index-zero] arg(0) == tx && arg(1) == any(credentialIssuer) && credentialIssuer.LastIssuedIndex == 0
+//@        && credentialIssuer.SubjectID == ret(call (*StatusList2021).statusListURL #1) && arg(call (*StatusList2021).statusListURL #1, 2) == credentialIssuer.Page && same(arg(call (*StatusList2021).statusListURL #1, 1), issuer)
+//@   call (*gorm.DB).Create #2 requires [new-page-gets-its-signed-list] ret(call (*gorm.DB).Create #1).Error == nil && isNilIface(ret(call (*StatusList2021).updateCredential #1).2)
+//@        && arg(call (*StatusList2021).updateCredential #1, 2) == credentialIssuer && arg(1) == any(ret(call (*StatusList2021).updateCredential #1).1)
+//@   ensures [success-means-the-index-was-persisted] isNilIface(result) ==>
+//@        ( did(call (*gorm.DB).UpdateColumn #1) && ret(call (*gorm.DB).UpdateColumn #1).Error == nil )
+//@     || ( did(call (*gorm.DB).Create #2) && ret(call (*gorm.DB).Create #2).Error == nil )
+
+// The entry handed to the credential names exactly the page and index that the last (successful)
+// transaction persisted; a transaction that lost a race (duplicate key) is retried, any other error fails.
+//@ func (*StatusList2021).Entry
+//@   prop C11
+//@   loop 1 invariant true
+//@   ensures [entry-names-the-persisted-slot] isNilIface(result.1) ==> result.0 != nil && purpose == StatusPurposeRevocation
+//@        && isNilIface(ret(call (*gorm.DB).Transaction #1))
+//@        && result.0.StatusListIndex == ret(call strconv.Itoa #1) && arg(call strconv.Itoa #1, 0) == credentialIssuer.LastIssuedIndex
+//@        && result.0.StatusListCredential == credentialIssuer.SubjectID && result.0.StatusPurpose == StatusPurposeRevocation && result.0.Type == StatusList2021EntryType
